@@ -9,8 +9,10 @@
       Hr_reset_ok           Reset (to an input or to nil) of a usable reader that
                             returns no error leaves it usable
                             (NOTHING is assumed about a reader whose Reset failed)
-      Hr_read_ok            Read keeps a reader usable, whatever the input
-                            (valid, truncated, garbage)
+      Hr_read_ok            a Read that reports no error (data or EOF) keeps a reader
+                            usable (NOTHING is assumed about a reader after a Read
+                            that reported an error: brotli keeps unconsumed input of
+                            the failed stream across Reset)
       Hr_reset_fresh        Reset(src) of a usable reader fails exactly when the
                             constructor fails on src and otherwise yields a reader
                             observationally equal to a freshly constructed one (same
@@ -171,7 +173,7 @@ Section Contract.
   Variable w_ok : W -> Prop.
   Hypothesis Hr_new_ok : forall src, snd (rd_new src) = false -> r_ok (fst (rd_new src)).
   Hypothesis Hr_reset_ok : forall s o, r_ok s -> snd (rd_reset s o) = false -> r_ok (fst (rd_reset s o)).
-  Hypothesis Hr_read_ok : forall s n, r_ok s -> r_ok (snd (rd_read s n)).
+  Hypothesis Hr_read_ok : forall s n, r_ok s -> snd (fst (rd_read s n)) <> Err -> r_ok (snd (rd_read s n)).
   Hypothesis Hr_reset_fresh : forall s src, r_ok s ->
     snd (rd_reset s (Some src)) = snd (rd_new src) /\
     (snd (rd_new src) = false -> obs_eq (fst (rd_reset s (Some src))) (fst (rd_new src))).
@@ -192,15 +194,20 @@ Section Contract.
   Lemma inv_init : inv init.
   Proof. repeat split; simpl; auto. Qed.
 
-  Lemma grow_loop_ok : forall f s dst cap, r_ok s -> r_ok (snd (fst (grow_loop f s dst cap))).
+  Lemma grow_loop_ok : forall f s dst cap out, r_ok s ->
+    fst (fst (grow_loop f s dst cap)) = Done out false ->
+    r_ok (snd (fst (grow_loop f s dst cap))).
   Proof.
-    induction f as [|f IH]; intros s dst cap H; simpl; auto.
+    induction f as [|f IH]; intros s dst cap out H; simpl; [discriminate|].
     pose proof (Hr_read_ok s (cap - length dst) H) as H1.
     destruct (rd_read s (cap - length dst)) as [[c st] s1]. simpl in H1.
-    destruct st; simpl; auto.
-    specialize (IH s1 (dst ++ c)
-                  (if Nat.eqb (length (dst ++ c)) cap then 2 * length (dst ++ c) else cap) H1).
-    destruct (grow_loop f s1 _ _) as [[o r] cs]. auto.
+    destruct st; simpl.
+    - specialize (IH s1 (dst ++ c)
+                    (if Nat.eqb (length (dst ++ c)) cap then 2 * length (dst ++ c) else cap) out
+                    (H1 ltac:(discriminate))).
+      destruct (grow_loop f s1 _ _) as [[o r] cs]. auto.
+    - intros _. apply H1. discriminate.
+    - discriminate.
   Qed.
 
   Lemma wrun_ok : forall w out0 src, w_ok w -> w_ok (snd (wrun w out0 src)).
@@ -221,14 +228,17 @@ Section Contract.
     intros r rn p1 p2 dst src Hobs Hok. unfold decode_run.
     set (cap := if Nat.eqb (length dst) 0 then 2 * length src else length dst).
     destruct (grow_loop_obs_eq fuel r rn (firstn 0 dst) cap Hobs) as [Ho _].
-    pose proof (grow_loop_ok fuel r (firstn 0 dst) cap Hok) as Hok1.
+    pose proof (grow_loop_ok fuel r (firstn 0 dst) cap) as Hok1.
     destruct (grow_loop fuel r (firstn 0 dst) cap) as [[o r1] cs].
     destruct (grow_loop fuel rn (firstn 0 dst) cap) as [[o' r1'] cs'].
     simpl in Ho, Hok1. subst o'.
     destruct o as [out err|]; [|simpl; auto].
-    pose proof (Hr_reset_ok r1 None Hok1) as Hok2.
-    destruct (rd_reset r1 None) as [r2 e2]. destruct (rd_reset r1' None) as [r2' e2'].
-    simpl in *. split; auto. intros HF. destruct e2; [auto | constructor; auto].
+    destruct (rd_reset r1 None) as [r2 e2] eqn:E2. destruct (rd_reset r1' None) as [r2' e2'].
+    simpl in *. split; auto. intros HF.
+    destruct e2; simpl; auto. destruct err; simpl; auto.
+    constructor; auto.
+    specialize (Hok1 out Hok eq_refl).
+    pose proof (Hr_reset_ok r1 None Hok1) as Hok2. rewrite E2 in Hok2. auto.
   Qed.
 
   Lemma obs_eq_refl : forall s, obs_eq s s.
